@@ -355,7 +355,8 @@ func (r *runner) check(final bool) {
 				case itAccepted:
 					it.judge = true
 					if late := it.acc - it.enq; late > 0 {
-						if it.acc <= s.excUntil && it.enq <= s.excUntil && late <= yieldRetryMax {
+						if it.acc <= s.excUntil && it.enq <= s.excUntil {
+							// held behind one or several RESULT retries of its own YIELDs
 							r.excUsed++
 						} else if s.expGone == "" {
 							v = append(v, viol{"handler-blocked", fmt.Sprintf("s%d: %s offered at %d ms was taken %d ms later", s.idx, it.desc, ms(it.enq), ms(late))})
